@@ -12,7 +12,8 @@ ID = "C14"
 LEVEL = "exploration"
 RULE = ("Hypothesis rule-based state machine: a generated ledger (forked history with spends spreading outputs over wallet and "
         "foreign keys) and a wallet of 1-6 keys; rules: spend(amount, fee) with amount/fee drawn below, at, one above and far "
-        "above the spendable total; confirm (mine a block containing a subset of the earlier successful spends); plain block. "
+        "above the spendable total; spend with an injected failure of the k-th signature (no transaction returned: the used-output "
+        "record must be unchanged); confirm (mine a block containing a subset of the earlier successful spends); plain block. "
         "Model: spendable = wallet-owned unspent outputs at the head not used by an earlier SUCCESSFUL spend. Oracle: success "
         "iff spendable >= amount+fee; on success the transaction passes the node's by-itself and in-state validation and the "
         "reference checks (ecdsa under the owner's key over the blanked transaction), output 0 = (amount, recipient), change = "
@@ -138,6 +139,47 @@ class Exec:
             name = "w%d" % self.n_tx
             self.run.world.txs[name] = p
             self.pending.append(name)
+        elif op[0] == "spend_fault":
+            # fault injection: the k-th signature of this spend fails (an exception during signing).  The wallet did not
+            # return a transaction, so its record of used outputs must be what it was, and the same request must succeed next.
+            import ecdsa
+            _, spec, rcpt, chg, kth = op
+            amt, fee = self.amount(spec)
+            sp = self.spendable()
+            if sum(sp.values()) < amt + fee:
+                return
+            before = {(r.hash, r.index) for r in self.wallet.spent_transaction_outputs}
+            orig_sign = ecdsa.SigningKey.sign
+            calls = {"n": 0}
+
+            class SigningFault(Exception):
+                pass
+
+            def failing_sign(sk, *a, **kw):
+                calls["n"] += 1
+                if calls["n"] == 1 + kth % 3:
+                    raise SigningFault()
+                return orig_sign(sk, *a, **kw)
+
+            ecdsa.SigningKey.sign = failing_sign
+            raised = False
+            try:
+                try:
+                    create_spend_transaction(self.wallet, cs, amt, fee, SECP256k1PublicKey(KEYS[rcpt].pub), SECP256k1PublicKey(KEYS[chg].pub))
+                except SigningFault:
+                    raised = True
+            finally:
+                ecdsa.SigningKey.sign = orig_sign
+            if not raised:
+                # fewer signatures than k were needed: the call succeeded normally -> account for it as a success
+                self.flags["successes"] += 1
+                tx_refs = set(sp) & {(r.hash, r.index) for r in self.wallet.spent_transaction_outputs}
+                self.used.update(tx_refs - before)
+                return
+            self.flags["signing_faults"] = self.flags.get("signing_faults", 0) + 1
+            after = {(r.hash, r.index) for r in self.wallet.spent_transaction_outputs}
+            if after != before:
+                self.fail("bookkeeping", "failed-signing-changed-used-set", "a spend that failed while signing (no transaction returned) left %d output(s) marked as used" % len(after - before))
         elif op[0] in ("confirm", "block"):
             self.n_blk += 1
             take = []
@@ -198,6 +240,11 @@ class Machine(RuleBasedStateMachine):
           rcpt=st.integers(0, len(KEYS) - 1), chg=st.integers(0, len(KEYS) - 1))
     def spend(self, mode, a, b, rcpt, chg):
         self.do(["spend", [mode, a, b], rcpt, chg])
+
+    @rule(mode=st.sampled_from(["at", "frac", "frac", "single"]), a=st.integers(0, 10 ** 9), b=st.sampled_from([0, 1, 7]),
+          rcpt=st.integers(0, len(KEYS) - 1), chg=st.integers(0, len(KEYS) - 1), kth=st.integers(0, 2))
+    def spend_fault(self, mode, a, b, rcpt, chg, kth):
+        self.do(["spend_fault", [mode, a, b], rcpt, chg, kth])
 
     @rule(mask=st.integers(0, 15), miner=st.integers(0, 7))
     def confirm(self, mask, miner):
